@@ -33,6 +33,16 @@ fn key_name(style: u8, k: usize) -> String {
     }
 }
 
+/// TTLs are milliseconds in the trace; the two largest values stand for `Duration::MAX` and
+/// `Duration::from_secs(1 << 61)` (more than 2^64 ms) — "never expires", written as a TTL
+fn ttl_dur(ms: u64) -> Duration {
+    match ms {
+        u64::MAX => Duration::MAX,
+        x if x == u64::MAX - 1 => Duration::from_secs(1 << 61),
+        ms => Duration::from_millis(ms),
+    }
+}
+
 fn bulk_key(i: usize) -> String {
     format!("bulk{i:05}")
 }
@@ -100,6 +110,9 @@ impl Holder {
 pub enum Val {
     Int(i64),
     Float(f64),
+    /// a float given by its bit pattern (the trace file is JSON itself: a float written as a decimal would not
+    /// be the same float after the replay file has been read back by a reader that rounds)
+    FloatBits(u64),
     Str(String),
     Bool(bool),
     Null,
@@ -113,6 +126,7 @@ impl Val {
         match self {
             Val::Int(i) => Value::Integer(*i),
             Val::Float(f) => Value::Number(*f),
+            Val::FloatBits(b) => Value::Number(f64::from_bits(*b)),
             Val::Str(s) => Value::String(s.clone()),
             Val::Bool(b) => Value::Boolean(*b),
             Val::Null => Value::Null,
@@ -764,7 +778,7 @@ impl<'a> Exec<'a> {
                     let key = key_name(t.key_style, *k);
                     clock::begin_call();
                     let r = match op {
-                        Op::PutTtl(_, _, ttl) => self.store.as_mut().unwrap().st_mut().put_with_ttl(key.clone(), v.to_value(), Duration::from_millis(*ttl)),
+                        Op::PutTtl(_, _, ttl) => self.store.as_mut().unwrap().st_mut().put_with_ttl(key.clone(), v.to_value(), ttl_dur(*ttl)),
                         _ => self.store.as_mut().unwrap().put(key.clone(), v.to_value()),
                     };
                     let reads = clock::shown_list();
@@ -778,9 +792,12 @@ impl<'a> Exec<'a> {
                         _ => self.t.default_ttl,
                     };
                     let (lo, hi) = match eff_ttl {
-                        Some(ttl) => (Some(tmin + ttl), Some(tmax + ttl)),
+                        Some(ttl) => (Some(tmin.saturating_add(ttl)), Some(tmax.saturating_add(ttl))),
                         None => (None, None),
                     };
+                    if eff_ttl.is_some_and(|t| t >= u64::MAX - 1) {
+                        obs.count("probe.ttl_that_means_never");
+                    }
                     let ttl = eff_ttl;
                     if matches!(op, Op::Put(..)) && eff_ttl.is_some() {
                         obs.count("probe.put_with_default_ttl");
@@ -808,7 +825,7 @@ impl<'a> Exec<'a> {
                             if let (Some(hi), Some(ttl)) = (e.exp_hi, e.ttl) {
                                 // whether an update refreshes the TTL is not the property's business:
                                 // both readings stay admissible
-                                e.exp_hi = Some(hi.max(tmax + ttl));
+                                e.exp_hi = Some(hi.max(tmax.saturating_add(ttl)));
                             }
                             obs.count("probe.update_ok");
                         }
@@ -1216,7 +1233,16 @@ fn gen_val(rng: &mut Rng, depth: usize) -> Val {
     let strs = ["", "a", "q\"uote", "back\\slash", "né-ñ-漢", "ctl\n\t\u{1}", "}{,:", "null"];
     match rng.usize(if depth >= 2 { 10 } else { 13 }) {
         0 | 1 | 2 => Val::Int(*rng.pick(&[0i64, 1, -1, 42, i64::MAX, i64::MIN, 1 << 53, 7])),
-        3 | 4 => Val::Float(*rng.pick(&[0.0f64, -0.0, 0.1, 1.5, -2.25, 1e21, 1e-7, 123456.789, f64::MAX, f64::MIN_POSITIVE])),
+        3 => Val::Float(*rng.pick(&[0.0f64, -0.0, 0.1, 1.5, -2.25, 1e21, 1e-7, 123456.789, f64::MAX, f64::MIN_POSITIVE])),
+        4 => {
+            // arbitrary doubles: a random bit pattern, a random decimal with many digits, rarely a non-finite one
+            let x = match rng.usize(40) {
+                0 => *rng.pick(&[f64::INFINITY, f64::NEG_INFINITY, f64::NAN]),
+                1..=19 => f64::from_bits(rng.next_u64()),
+                _ => rng.below(1 << 53) as f64 / 9_007_199.0 * if rng.chance(1, 2) { 1.0 } else { -1e-3 },
+            };
+            Val::FloatBits(x.to_bits())
+        }
         5 | 6 => Val::Str(rng.pick(&strs).to_string()),
         7 => Val::Bool(rng.chance(1, 2)),
         8 => Val::Null,
@@ -1282,7 +1308,7 @@ impl World for StoreWorld {
             stub: vec!["SimClock (wall ms: ids, TTL)", "SimDisk decisions (errors, short writes, crash points) through the cfg(rre_verif) fs shim", "process boundary (restart = new StateStore on the same directory)", "hash seed"],
             assumptions: vec![
                 "crash model: process crash — completed calls persist, an in-flight write persists a prefix; power loss with un-synced pages is not modelled (the property does not ask for it, the code has no fsync)".into(),
-                "non-finite floats are not generated (serde_json cannot represent them)".into(),
+                "floats are arbitrary doubles (random bit patterns and many-digit decimals, compared by bit pattern after restore), non-finite ones included: a checkpoint of a state that holds one may be refused, but an acknowledged checkpoint must restore".into(),
                 "TTL expiry is three-valued at now == created + ttl and whenever the clock ticked across the expiry during a call; whether update() refreshes a TTL is left open".into(),
                 "an evicted checkpoint may restore exactly or fail; a checkpoint() that refuses without a fault is counted, not judged".into(),
             ],
@@ -1338,7 +1364,9 @@ impl World for StoreWorld {
                         Some(prev) if rng.chance(1, 3) => prev.clone(),
                         _ => {
                             last_ttl = *rng.pick(&ttls);
-                            let op = Op::PutTtl(rng.usize(3), gen_val(rng, 0), last_ttl);
+                            // one TTL in thirty means "never": Duration::MAX or more than 2^64 ms
+                            let t = if rng.chance(1, 30) { *rng.pick(&[u64::MAX, u64::MAX - 1]) } else { last_ttl };
+                            let op = Op::PutTtl(rng.usize(3), gen_val(rng, 0), t);
                             last_put_ttl = Some(op.clone());
                             op
                         }
@@ -1417,7 +1445,7 @@ impl World for StoreWorld {
         if slow {
             for o in ops.iter_mut() {
                 match o {
-                    Op::PutTtl(_, _, ttl) => *ttl = *ttl * 1000 + if rng.chance(1, 3) { rng.below(1000) } else { 0 },
+                    Op::PutTtl(_, _, ttl) if *ttl < u64::MAX - 1 => *ttl = *ttl * 1000 + if rng.chance(1, 3) { rng.below(1000) } else { 0 },
                     Op::Advance(d) if *d < 1000 => *d *= 1000,
                     Op::StepBack(d) => *d *= 1000,
                     _ => {}
